@@ -568,10 +568,73 @@ func genC07(g *gen) {
 	}
 	g.line("Definition gen_shell_seal_and_write_one_section : bool := %s.", coqBool(shellAtomic))
 
+	// a stream is registered with its handler before its STREAM_OPEN_ACK is
+	// written (first occurrence of the registration precedes the first ACK call)
+	before := func(fd *ast.FuncDecl, first, then string) bool {
+		if fd == nil || fd.Body == nil {
+			return false
+		}
+		p1, p2 := token.NoPos, token.NoPos
+		ast.Inspect(fd.Body, func(n ast.Node) bool {
+			switch x := n.(type) {
+			case *ast.AssignStmt:
+				if p1 == token.NoPos && len(x.Lhs) == 1 && strings.Contains(src(x.Lhs[0]), first) {
+					p1 = x.Pos()
+				}
+			case *ast.CallExpr:
+				f := src(x.Fun)
+				if p1 == token.NoPos && strings.HasSuffix(f, first) {
+					p1 = x.Pos()
+				}
+				if p2 == token.NoPos && strings.HasSuffix(f, then) {
+					p2 = x.Pos()
+				}
+			}
+			return true
+		})
+		return p1 != token.NoPos && p2 != token.NoPos && p1 < p2
+	}
+	regRows := []struct {
+		name string
+		ok   bool
+	}{
+		{"exit.handleStreamOpenAsync", before(findFuncInDir("internal/exit", "Handler", "handleStreamOpenAsync"), "h.connections[streamID]", "WriteStreamOpenAck")},
+		{"forward.handleStreamOpenAsync", before(findFuncInDir("internal/forward", "Handler", "handleStreamOpenAsync"), "h.connections[streamID]", "WriteStreamOpenAck")},
+		{"agent.handleFileTransferStreamOpen", before(findFunc(agentFile, "Agent", "handleFileTransferStreamOpen"), "a.fileStreams[streamID]", "WriteStreamOpenAck")},
+		{"agent.handleShellStreamOpen", before(findFunc(agentFile, "Agent", "handleShellStreamOpen"), "shellHandler.HandleStreamOpen", "WriteStreamOpenAck")},
+	}
+	var regItems []string
+	for _, r := range regRows {
+		regItems = append(regItems, fmt.Sprintf("(%s, %s)", coqString(r.name), coqBool(r.ok)))
+	}
+
+	// socks5 handleConnect clears BOTH deadlines of both connections before the relay
+	socksClears := false
+	if fd := findFuncInDir("internal/socks5", "Handler", "handleConnect"); fd != nil && fd.Body != nil {
+		var cpos, tpos, rpos token.Pos
+		ast.Inspect(fd.Body, func(n ast.Node) bool {
+			if call, ok := n.(*ast.CallExpr); ok {
+				t := src(call)
+				switch {
+				case t == "conn.SetDeadline(time.Time{})":
+					cpos = call.Pos()
+				case t == "target.SetDeadline(time.Time{})":
+					tpos = call.Pos()
+				case strings.HasPrefix(t, "relay("):
+					rpos = call.Pos()
+				}
+			}
+			return true
+		})
+		socksClears = cpos != token.NoPos && tpos != token.NoPos && rpos != token.NoPos && cpos < rpos && tpos < rpos
+	}
+	g.line("Definition gen_socks_connect_clears_both_deadlines : bool := %s.", coqBool(socksClears))
+
 	var items []string
 	for _, r := range rows {
 		items = append(items, fmt.Sprintf("(%s, (%d, %d, %s))", coqString(r.name), r.buf, r.pre, coqBool(r.split)))
 	}
 	g.line("Open Scope string_scope.")
+	g.line("Definition gen_registered_before_ack : list (string * bool) :=\n  [%s].", strings.Join(regItems, "; "))
 	g.line("Definition gen_paths : list (string * (N * N * bool)) :=\n  [%s].", strings.Join(items, ";\n   "))
 }
